@@ -151,6 +151,13 @@ class CallsMixin:
                 # function is allowed to do; the rest of the path has it
                 st.assume(g)
                 continue
+            if c.label == 'nopanic' and cx.contract.panics_if:
+                # the callee panics where its guard fails: allowed exactly under the caller's
+                # stated panic condition (evaluated in the entry state)
+                allowed = cx.panic_allowed(st, fr)
+                cx.prove(st, z3.Or(g, allowed), name, 'call-requires', ins.get('pos'), c.text, assume_after=False)
+                st.assume(g)
+                continue
             cx.prove(st, g, name, 'call-requires', ins.get('pos'), c.text, assume_after=True)
         old = st.copy()
         # frame: havoc what the callee may modify
@@ -405,7 +412,7 @@ class CallsMixin:
         return None
 
     # ------------------------------------------------------------ inlining
-    def call_inline(self, st, fr, b, i, ins, callee, fnd, binds, args):
+    def call_inline(self, st, fr, b, i, ins, callee, fnd, binds, args, cont=None):
         from .engine import Frame
         cx = self.cx
         cx.inlined.add(callee)
@@ -416,6 +423,9 @@ class CallsMixin:
             callee_regs = st2.regs
             st2.regs = dict(caller_regs_holder[0])
             self.set_result(st2, ins, vals)
+            if cont is not None:
+                cont(st2)
+                return
             cx.exec_from(st2, fr, b, i + 1)
         caller_regs_holder = [caller_regs]
         nf = Frame(callee, fnd, cx.cfg_of(callee), on_return, fr.depth + 1)
@@ -758,7 +768,7 @@ class CallsMixin:
                 elif t.kind == 'map':
                     out.append((('map', t.tk, ()), t.ref if known(t.ref) else None))
                 elif t.kind == 'region':
-                    out.append(((t.fam, t.tk, ()), None))
+                    out.append(((t.fam, t.tk, tuple(getattr(t, 'prefix', None) or ())), None))
         finally:
             self.cx.solver_add = saved_solver_add
         return out
